@@ -17,7 +17,9 @@ use std::{
 
 use serde_json::{json, Value};
 
-const VERIF: &str = "/verif";
+fn verif() -> String {
+    std::env::var("VERIF_DIR").unwrap_or_else(|_| "/verif".to_string())
+}
 
 fn arg(args: &[String], k: &str) -> Option<String> {
     args.iter().position(|a| a == k).and_then(|i| args.get(i + 1).cloned())
@@ -113,7 +115,7 @@ fn parent(prop: &str, tier: &str) -> i32 {
     let mut violations = Vec::new();
     let mut machinery = Vec::new();
     let mut samples = Vec::new();
-    let _ = std::fs::create_dir_all(format!("{VERIF}/replays/{prop}"));
+    let _ = std::fs::create_dir_all(format!("{}/replays/{prop}", verif()));
     // All catalogue entries run concurrently, one child process each.
     let outs: Vec<ChildOut> = std::thread::scope(|s| {
         let hs: Vec<_> = entries
@@ -121,7 +123,7 @@ fn parent(prop: &str, tier: &str) -> i32 {
             .map(|e| {
                 let bound = if quick { e.quick_bound } else { e.thorough_bound };
                 let timeout = if quick { 120 } else { 3600 };
-                let cp = format!("{VERIF}/replays/{prop}/{prop}-loom-{}.checkpoint.json", e.name);
+                let cp = format!("{}/replays/{prop}/{prop}-loom-{}.checkpoint.json", verif(), e.name);
                 let _ = std::fs::remove_file(&cp);
                 let name = e.name;
                 s.spawn(move || run_child(name, bound, Some(&cp), timeout))
@@ -132,7 +134,7 @@ fn parent(prop: &str, tier: &str) -> i32 {
     for (e, o) in entries.iter().zip(outs) {
         let bound = if quick { e.quick_bound } else { e.thorough_bound };
         let timeout = if quick { 120 } else { 3600 };
-        let cp = format!("{VERIF}/replays/{prop}/{prop}-loom-{}.checkpoint.json", e.name);
+        let cp = format!("{}/replays/{prop}/{prop}-loom-{}.checkpoint.json", verif(), e.name);
         match classify(&o) {
             Verdict::Pass { schedules, outcomes, complete } => {
                 let _ = std::fs::remove_file(&cp);
@@ -164,7 +166,7 @@ fn parent(prop: &str, tier: &str) -> i32 {
                     machinery.push(format!("{}: failure did not replay deterministically ({} vs {:?})", e.name, msg, msgs));
                     continue;
                 }
-                let rp = format!("{VERIF}/replays/{prop}/{prop}-loom-{}.json", e.name);
+                let rp = format!("{}/replays/{prop}/{prop}-loom-{}.json", verif(), e.name);
                 let rf = json!({"engine": "loom", "bin": "lm", "property": prop, "tier": tier, "harness": e.name, "what": e.what, "preemption_bound": bound, "checkpoint": cp, "failure": msg,
                     "replay_cmd": format!("./check replay {rp}")});
                 std::fs::write(&rp, serde_json::to_string_pretty(&rf).unwrap()).unwrap();
@@ -205,7 +207,7 @@ fn parent(prop: &str, tier: &str) -> i32 {
         "wall_s": t0.elapsed().as_secs_f64(),
         "violations": violations.len(),
     });
-    let dir = format!("{VERIF}/evidence/parts");
+    let dir = format!("{}/evidence/parts", verif());
     let _ = std::fs::create_dir_all(&dir);
     std::fs::write(format!("{dir}/{prop}.lm.json"), serde_json::to_string_pretty(&part).unwrap()).unwrap();
     if !violations.is_empty() {
